@@ -131,8 +131,12 @@ Step ==
        [] e.e = "wait_begin" ->
             LET both == IF insec THEN secBoth
                         ELSE KindInFlight(c, "thread") /\ KindInFlight(c, "async")
+                aw == Range(e.s) \cap 1..c.n
                 bad == Clauses({
                   <<~JustifiedD(c, ph, deliv), "C08.begin">>,
+                  \* an async-thread node must be awaited through the event loop: a blocking wait on it
+                  \* keeps the loop from serving other coroutines while it runs (C17)
+                  <<e.k = "thread" /\ \E m \in aw : c.res[m] = "async", "C17.blocking-wait-on-async-node">>,
                   <<blk, "WF.nested-wait">>})
             IN /\ blk' = TRUE /\ awaited' = Range(e.s) /\ insec' = TRUE /\ secBoth' = both
                /\ viol' = Mark(bad, IF both THEN "both" ELSE "single")
